@@ -264,7 +264,10 @@ def ob_proj_ineq(sysname, vname):
         return out
     return FnOb(herm_inputs("h", d) + [(f"w{i}", "real", -BOX, BOX) for i in range(n - 1)], run,
                 assume=lambda I: stubs.ascending([I[f"w{i}"] for i in range(n - 1)]), max_paths=300, eager_ite=True, solver_timeout_ms=40000,
-                stubs=["np.linalg.eig: spectral parametrisation of K, frame " + vname],
+                # concrete spectra with a repeated eigenvalue, tried when a model of a degenerate path is replayed: whether LAPACK's general
+                # eigen-solver returns a non-orthogonal basis of the eigenspace depends on the data, not on anything the solver can see
+                replay_variants=[{}] + [{f"w{i}": v for i, v in enumerate(ws)} for ws in ([-0.3, 0.7, 0.7], [-1.0, 0.5, 0.5], [0.3, 0.3, 0.9], [-0.4, -0.4, 0.8])] if n - 1 == 3 else None,
+                stubs=["np.linalg.eig / eigh: spectral parametrisation of K, frame " + vname + " (eig: eigenvectors of a repeated eigenvalue need not be orthogonal)"],
                 outside=["eig's eigenvector choice for repeated eigenvalues"])
 
 
